@@ -245,7 +245,7 @@ inductive TOp where
   | deleteTags (tl : List Nat)
   | adv (dt : Nat)
   | purge
-  deriving Repr
+  deriving Repr, DecidableEq
 
 def step (cfg : Cfg) (s : St) : TOp → St × Out
   | .set k v ttl c tags => s.wset cfg k v ttl c tags
@@ -311,5 +311,119 @@ def TOp.registered (cfg : Cfg) : TOp → Bool
   | .incr k _ _ tags => tags.all (fun t => (cfg.tagOf k).contains t)
   | .call k _ _ tags => tags.all (fun t => (cfg.tagOf k).contains t)
   | _ => true
+
+/-! ### decorators that write again while their entry is alive (`early`, `soft`, `hit` / `dynamic`)
+
+`cashews/wrapper/decorators.py` gives `tags=` to `cache`, `early`, `soft`, `hit` and `dynamic` (= `hit` with
+`cache_hits=3, update_after=1`); `failover` and `iterator` take none.  Unlike the simple `@cache` (`wcall`: one write,
+on a miss) these strategies **re-write** a key that is still readable: `early` recalculates a hot entry ahead of
+its deadline (in the foreground or in a background task), `soft` recomputes after the soft deadline, `hit` updates at
+`update_after` hits and recomputes beyond `cache_hits`.  Every such re-write is the wrapper command
+`backend.set(key, value, expire=ttl, tags=_tags)` with the tags rendered from the arguments of the call that
+triggered it - a tagged write like any other (`decorWrite`): it moves the key's deadline to `now + ttl`, and its
+`set_add`s are what moves the tag sets' deadlines along.  Each decorated call is written here as the list of wrapper
+commands it issues in state `s` (a program over the alphabet `TOp`, so every theorem about histories covers it) and
+what the call did: `.val (some c)` = served `c` from the cache, nothing written; `.vals [some x]` = the body ran and
+its result `x` was stored (first write or re-write).  Which value a call that re-writes hands to its caller (the entry
+it found, or the fresh result it waited for) is the strategy's business and left out.  The decorated body returns the
+opaque token `x` at once (calls are sequential). -/
+
+/-- `await backend.set(key, value, expire=ttl, tags=tags)` issued by a decorator (first write or re-write) -/
+def decorWrite (k : Nat) (v : Val) (ttl : Option Nat) (tags : List Nat) : TOp := .set k v ttl .always tags
+
+/-- `@cache.early(ttl, early_ttl, tags=...)` (`cashews/decorators/cache/early.py`):
+```
+cached = await backend.get(_cache_key, default=_empty)
+if cached is _empty: return await _get_result_for_early(*args_to_call)           # miss: compute, set(tags=_tags)
+early_expire_at, result = cached
+if early_expire_at >= datetime.now(timezone.utc): return result                  # served
+if not await backend.set(lock_key, "1", expire=_early_ttl, exist=False): return result
+task = asyncio.create_task(_get_result_for_early(*args_to_call, unlock=True))    # the recalculation
+if not background: await task
+return result
+# _get_result_for_early: result = await func(...); early_expire_at = now + early_ttl
+#                        await backend.set(key, [early_expire_at, result], expire=ttl, tags=tags)
+```
+The stored value `[early_expire_at, result]` is `.nums [stamp, x]`; `lk` is the lock key `key + ":lock"` (written
+without tags, but a key like any other for the registry: its removal fires the on-remove callback).  In sequential
+histories the lock is free (it is deleted when the recalculation ends).  With `retag = false` the recalculation
+stores its result without tags ("the key is already in its tag sets") - kept only to show, in `Props/C12.lean`,
+that this breaks the property. -/
+def earlyCallWith (retag : Bool) (cfg : Cfg) (s : St) (k lk x : Nat) (ttl : Option Nat) (early : Nat) (tags : List Nat) :
+    List TOp × Out :=
+  let v := Val.nums [s.now + early, x]
+  let g := TOp.get k
+  let l := TOp.set lk (.tok 1) (some early) .nx []
+  match (step cfg s g).2 with
+  | .val none => ([g, decorWrite k v ttl tags], .vals [some (.tok x)])
+  | .val (some (.nums [stamp, c])) =>
+    if s.now ≤ stamp then ([g], .val (some (.tok c)))
+    else if (step cfg (step cfg s g).1 l).2 = .bool true then
+      ([g, l, decorWrite k v ttl (if retag then tags else []), .delete lk], .vals [some (.tok x)])
+    else ([g, l], .val (some (.tok c)))
+  | _ => ([g], .err)
+
+def earlyCall := earlyCallWith true
+
+/-- `@cache.soft(ttl, soft_ttl, tags=...)` (`cashews/decorators/cache/soft.py`):
+```
+cached = await backend.get(_cache_key, default=_empty)
+if cached is not _empty:
+    soft_expire_at, result = cached
+    if soft_expire_at > datetime.now(timezone.utc): return result                # served
+result = await func(*args, **kwargs)                                             # miss, or past the soft deadline
+soft_expire_at = now + soft_ttl
+await backend.set(_cache_key, [soft_expire_at, result], expire=_ttl, tags=_tags)
+return result
+``` -/
+def softCall (cfg : Cfg) (s : St) (k x : Nat) (ttl : Option Nat) (soft : Nat) (tags : List Nat) : List TOp × Out :=
+  let w := decorWrite k (.nums [s.now + soft, x]) ttl tags
+  match (step cfg s (.get k)).2 with
+  | .val none => ([.get k, w], .vals [some (.tok x)])
+  | .val (some (.nums [stamp, c])) =>
+    if s.now < stamp then ([.get k], .val (some (.tok c))) else ([.get k, w], .vals [some (.tok x)])
+  | _ => ([.get k], .err)
+
+/-- `@cache.hit(ttl, cache_hits, update_after, tags=...)` and `@cache.dynamic` (`cashews/decorators/cache/hit.py`);
+`kc` is the counter key `key + ":counter"`, which the decorator registers for the same tags:
+```
+cached, hits = await asyncio.gather(backend.get(_cache_key, default=_empty),
+                                    backend.incr(_cache_key + ":counter", expire=ttl, tags=_tags))
+if cached is not _empty and hits and hits <= cache_hits:
+    if update_after and hits == update_after: <_get_and_save in a task, awaited unless background>
+    return cached
+return await _get_and_save(...)
+# _get_and_save: result = await func(...)
+#                await asyncio.gather(backend.delete(key + ":counter"), backend.set(key, result, expire=ttl, tags=tags))
+```
+(the in-memory commands never suspend, so the gathered commands run in the order they are listed) -/
+def hitCall (cfg : Cfg) (s : St) (k kc x : Nat) (ttl : Option Nat) (tags : List Nat) (cacheHits updateAfter : Nat) :
+    List TOp × Out :=
+  let g := TOp.get k
+  let i := TOp.incr kc 1 ttl tags
+  let save := [TOp.delete kc, decorWrite k (.tok x) ttl tags]
+  match (step cfg s g).2, (step cfg (step cfg s g).1 i).2 with
+  | .val (some c), .int n =>
+    if n ≠ 0 ∧ n ≤ (cacheHits : Int) then
+      if updateAfter ≠ 0 ∧ n = (updateAfter : Int) then (g :: i :: save, .vals [some (.tok x)])
+      else ([g, i], .val (some c))
+    else (g :: i :: save, .vals [some (.tok x)])
+  | .val none, .int _ => (g :: i :: save, .vals [some (.tok x)])
+  | _, _ => ([g, i], .err)
+
+/-- did the decorated body run (and its result get stored)? -/
+def bodyRan : Out → Bool
+  | .vals _ => true
+  | _ => false
+
+/-- **a call of a function decorated with `tags=`**, by any of the decorators that take the parameter, made in state `s`
+for key `k` with the ttl and the tags of this call: the wrapper commands it issues and what it did.  (`lk`, `kc`: the lock /
+counter key is another key than `k`.) -/
+inductive DecorCall (cfg : Cfg) (s : St) (k : Nat) (ttl : Option Nat) (tags : List Nat) : List TOp × Out → Prop where
+  | simple (v : Val) : DecorCall cfg s k ttl tags ([.call k v ttl tags], (step cfg s (.call k v ttl tags)).2)
+  | early (lk x early : Nat) (h : lk ≠ k) : DecorCall cfg s k ttl tags (earlyCall cfg s k lk x ttl early tags)
+  | soft (x soft : Nat) : DecorCall cfg s k ttl tags (softCall cfg s k x ttl soft tags)
+  | hit (kc x cacheHits updateAfter : Nat) (h : kc ≠ k) :
+      DecorCall cfg s k ttl tags (hitCall cfg s k kc x ttl tags cacheHits updateAfter)
 
 end CashewsVerif.Tags
